@@ -56,9 +56,43 @@ type pendingViol struct {
 // ordered is a tally whose violations are buffered with the index of the job that found them, so
 // that they can be reported in enumeration order (simplest first) whatever the worker scheduling.
 type ordered struct {
-	*engine.Tally
+	tally
 	e   *env
 	idx int64
+}
+
+// limited keeps at most perFingerprint violations of each fingerprint (in arrival order), so that a
+// flood of one kind cannot exhaust the engine's cap of kept violations and hide another kind.
+type limited struct {
+	*engine.Tally
+	mu    sync.Mutex
+	count map[string]int
+}
+
+const perFingerprint = 4
+
+func newLimited(t *engine.Tally) *limited { return &limited{Tally: t, count: map[string]int{}} }
+
+func (l *limited) Violate(cfg any, path []string, fp, detail string) {
+	l.mu.Lock()
+	l.count[fp]++
+	n := l.count[fp]
+	l.mu.Unlock()
+	if n <= perFingerprint {
+		l.Tally.Violate(cfg, path, fp, detail)
+	}
+}
+
+// totals lists "fingerprint: occurrences" for the run notes.
+func (l *limited) totals() []string {
+	l.mu.Lock()
+	defer l.mu.Unlock()
+	var out []string
+	for fp, n := range l.count {
+		out = append(out, fmt.Sprintf("%s: %d occurrence(s)", fp, n))
+	}
+	sort.Strings(out)
+	return out
 }
 
 func (o ordered) Violate(cfg any, path []string, fp, detail string) {
@@ -70,7 +104,7 @@ func (o ordered) Violate(cfg any, path []string, fp, detail string) {
 }
 
 // flush hands the buffered violations to the tally in job order.
-func (e *env) flush(t *engine.Tally) {
+func (e *env) flush(t tally) {
 	e.vmu.Lock()
 	defer e.vmu.Unlock()
 	sort.SliceStable(e.pending, func(i, j int) bool { return e.pending[i].idx < e.pending[j].idx })
@@ -166,7 +200,7 @@ func contentJobs(e *env, baseTime int64) []contentJob {
 	return jobs
 }
 
-func runContents(e *env, t *engine.Tally) {
+func runContents(e *env, t tally) {
 	b0 := e.pool.get(0)
 	jobs := contentJobs(e, b0.baseTime)
 	done := engine.ParallelFor(int64(len(jobs)), 0, e.deadline, func(worker int, idx int64) {
@@ -225,7 +259,7 @@ func (b *base) requestSignature(ctx sdk.Context, c contentCase, sender, memo str
 	return b.w.Tx(ctx, 0, msg)
 }
 
-func runDirect(e *env, t *engine.Tally) {
+func runDirect(e *env, t tally) {
 	b0 := e.pool.get(0)
 	senders := []string{bandtesting.Alice.Address.String(), bandtesting.Bob.Address.String()}
 	memos := []string{"", "a", "a|b", strings.Repeat("m", 100), strings.Repeat("m", 101)}
@@ -344,7 +378,7 @@ var userKinds = map[string]bool{
 	"/band.feeds.v1beta1.FeedsSignatureOrder":         true,
 }
 
-func runInternal(e *env, t *engine.Tally) {
+func runInternal(e *env, t tally) {
 	b := e.pool.get(0)
 	cfg := map[string]any{"section": "internal"}
 	var cases []contentCase
@@ -464,7 +498,7 @@ var tunnelPriceCfgs = [][]feedState{
 	{{ID: "CS:BTC-USD", Present: true, Price: 1_000_099_999}},
 }
 
-func runTunnel(e *env, t *engine.Tally) {
+func runTunnel(e *env, t tally) {
 	b0 := e.pool.get(0)
 	strs := []string{"a", "b", "ab", "a|b", ff32}
 	if e.quick {
@@ -596,7 +630,7 @@ func runTunnel(e *env, t *engine.Tally) {
 
 // ---- section "transition": the signing created when an incoming group finishes its DKG ----------
 
-func runTransition(e *env, t *engine.Tally) {
+func runTransition(e *env, t tally) {
 	b := e.pool.get(0)
 	cfg := map[string]any{"section": "transition"}
 	type tj struct {
